@@ -482,3 +482,312 @@ func ruleRemoveRun(c *Ctx) {
 		c.note("no remove event is built in the cache package")
 	}
 }
+
+// ---------------------------------------------------------------------------
+// PROV/json-text (C07, C02): a MarshalJSON method hands encoding/json bytes
+// that are JSON by construction. Text data (a resource id, a key) reaches the
+// output only through json.Marshal; a string that is not a compile-time
+// constant is never converted to bytes or written as it is — an unescaped
+// quote or backslash makes the whole frame fail to encode, and the request it
+// answers gets no response at all.
+
+func ruleJSONText(c *Ctx) {
+	p := c.P
+	n := 0
+	seen := map[*ssa.Function]bool{}
+	var fns []*ssa.Function
+	for _, fn := range p.Repo {
+		if fn.Parent() != nil || fn.Signature.Recv() == nil || fn.Name() != "MarshalJSON" || fn.Synthetic != "" {
+			continue
+		}
+		for _, g := range append([]*ssa.Function{fn}, staticCallees(p, fn)...) {
+			if !seen[g] && p.isRepoFn(g) {
+				seen[g] = true
+				fns = append(fns, g)
+			}
+		}
+	}
+	sort.Slice(fns, func(i, j int) bool { return fnName(fns[i]) < fnName(fns[j]) })
+	isConstStr := func(v ssa.Value) bool {
+		_, ok := constString(v)
+		return ok
+	}
+	for _, fn := range fns {
+		for _, in := range instrsOf(fn) {
+			switch x := in.(type) {
+			case *ssa.Convert:
+				// string -> []byte
+				bt, isB := x.X.Type().Underlying().(*types.Basic)
+				if !isB || bt.Info()&types.IsString == 0 {
+					continue
+				}
+				if _, isSlice := x.Type().Underlying().(*types.Slice); !isSlice {
+					continue
+				}
+				n++
+				c.inst(1)
+				c.check(isConstStr(x.X), fnName(fn), "text reaches the JSON output only through json.Marshal", p.InstrPos(x), "constant text", "a string that is not a constant is converted to output bytes as it is: a quote, backslash or control character in it makes the frame invalid JSON, the encoder fails and the request gets no response")
+			case *ssa.Call:
+				cf := calleeFunc(&x.Call)
+				if cf == nil || cf.Pkg() == nil {
+					continue
+				}
+				if (cf.Pkg().Path() == "bytes" || cf.Pkg().Path() == "strings") && cf.Name() == "WriteString" {
+					args := callArgs(&x.Call)
+					n++
+					c.inst(1)
+					c.check(isConstStr(args[len(args)-1]), fnName(fn), "text reaches the JSON output only through json.Marshal", p.InstrPos(x), "constant text", "a string that is not a constant is written to the output as it is")
+				}
+			}
+		}
+	}
+	c.inst(len(fns))
+	if len(fns) == 0 {
+		c.viol("MarshalJSON", "text reaches the JSON output only through json.Marshal", "-", "no MarshalJSON method found")
+	} else if n == 0 {
+		c.ok("MarshalJSON", "text reaches the JSON output only through json.Marshal", "-", fmt.Sprintf("%d marshalers and helpers: no string is converted or written as it is", len(fns)))
+	}
+}
+
+// ---------------------------------------------------------------------------
+// DOM/validate-before-conn (C14): an HTTP request with an invalid resource id
+// is answered 404 "without any service traffic". The temporary connection of a
+// request already causes traffic (header authentication, the connection's own
+// event subscription), so it is created only behind the validity test.
+
+func ruleValidateBeforeConn(c *Ctx) {
+	p := c.P
+	tc := p.Method("server.Service.temporaryConn")
+	isValid := p.PkgFunc("codec.IsValidRID")
+	if tc == nil || isValid == nil {
+		c.undecided("(*server.Service).temporaryConn", "anchor", "-", "not found")
+		return
+	}
+	valid := func(i *ssa.If) (bool, bool) {
+		v, neg := ssa.Value(i.Cond), false
+		if u, ok := v.(*ssa.UnOp); ok && u.Op == token.NOT {
+			v, neg = u.X, true
+		}
+		if cl, ok := v.(*ssa.Call); ok && calleeFunc(&cl.Call) == isValid {
+			return !neg, true
+		}
+		return false, false
+	}
+	n := 0
+	for _, fn := range p.Repo {
+		for _, call := range callsIn(fn) {
+			if _, ok := isCallTo(call, tc); !ok {
+				continue
+			}
+			n++
+			c.inst(1)
+			c.check(p.guardedUp(call, valid, 0), fnName(fn), "the temporary connection of an HTTP request is created only for a valid resource id", p.InstrPos(call), "dominated by IsValidRID",
+				"a request with an invalid resource id gets a temporary connection (header authentication request, connection event subscription) before it is rejected: service traffic for an input that must cause none")
+		}
+	}
+	if n == 0 {
+		c.viol("(*server.Service).temporaryConn", "the temporary connection of an HTTP request is created only for a valid resource id", "-", "no call found")
+	}
+}
+
+// ---------------------------------------------------------------------------
+// TABLE/href-dots (C16): reader and writer of HTTP paths agree on '.'. The
+// reader (PathToRID) refuses any path that contains a dot; so every piece of a
+// resource id the writer (RIDToPath) puts into an href passes through the
+// '.' → '/' replacement — a dot left in an href (say, in the query of the id)
+// yields a link the gateway itself answers with 404.
+
+func ruleHrefDots(c *Ctx) {
+	p := c.P
+	rd, wr := p.Fn("server.PathToRID"), p.Fn("server.RIDToPath")
+	if rd == nil || wr == nil || len(wr.Params) == 0 {
+		c.undecided("server.RIDToPath", "anchor", "-", "not found")
+		return
+	}
+	isDot := func(v ssa.Value) bool {
+		if s, ok := constString(v); ok {
+			return s == "."
+		}
+		if k, ok := constInt(v); ok {
+			return k == '.'
+		}
+		return false
+	}
+	rejects := false
+	for _, g := range append([]*ssa.Function{rd}, staticCallees(p, rd)...) {
+		for _, in := range instrsOf(g) {
+			if cl, ok := in.(*ssa.Call); ok {
+				nm := calleeName(&cl.Call)
+				if strings.HasPrefix(nm, "strings.Contains") || strings.HasPrefix(nm, "strings.Index") {
+					for _, a := range cl.Call.Args[1:] {
+						if isDot(a) {
+							rejects = true
+						}
+					}
+				}
+			}
+		}
+	}
+	c.inst(1)
+	if !rejects {
+		c.ok(fnName(wr), "no dot of a resource id is left in an href", p.Pos(wr.Pos()), "the reader does not refuse dots: nothing to agree on")
+		return
+	}
+	rid := wr.Params[0]
+	fromRID := func(v ssa.Value) bool { return v == ssa.Value(rid) }
+	var flat func(v ssa.Value, out *[]ssa.Value, d int)
+	flat = func(v ssa.Value, out *[]ssa.Value, d int) {
+		if b, ok := v.(*ssa.BinOp); ok && b.Op == token.ADD && d < 12 {
+			flat(b.X, out, d+1)
+			flat(b.Y, out, d+1)
+			return
+		}
+		if ph, ok := v.(*ssa.Phi); ok && d < 12 {
+			for _, e := range ph.Edges {
+				flat(e, out, d+1)
+			}
+			return
+		}
+		*out = append(*out, v)
+	}
+	bad := ""
+	nret := 0
+	for _, in := range instrsOf(wr) {
+		r, ok := in.(*ssa.Return)
+		if !ok || len(r.Results) != 1 {
+			continue
+		}
+		nret++
+		var parts []ssa.Value
+		flat(r.Results[0], &parts, 0)
+		for _, pt := range parts {
+			if _, isC := pt.(*ssa.Const); isC {
+				continue
+			}
+			if cl, isCall := pt.(*ssa.Call); isCall {
+				nm := calleeName(&cl.Call)
+				if (nm == "strings.Replace" || nm == "strings.ReplaceAll") && len(cl.Call.Args) >= 3 && isDot(cl.Call.Args[1]) {
+					if s, ok := constString(cl.Call.Args[2]); ok && s == "/" {
+						continue
+					}
+				}
+			}
+			if dependsOn(pt, fromRID, map[ssa.Value]bool{}, 0) {
+				bad = "a piece of the resource id is put into the path without the '.' → '/' replacement (" + p.InstrPos(r) + "): the reader refuses every path with a dot, so the href of such a resource leads to 404"
+			}
+		}
+	}
+	if nret == 0 {
+		bad = "no return found"
+	}
+	c.check(bad == "", fnName(wr), "no dot of a resource id is left in an href", p.Pos(wr.Pos()), "every id-derived piece passes the '.' → '/' replacement; the reader refuses dots", bad)
+}
+
+// ---------------------------------------------------------------------------
+// DOM/auth-meta-kept (C17): "Set-Cookie values accumulate". The meta of the
+// header-authentication answer (its headers, its cookies) is kept for the
+// response on every path on which the request goes on — also when the
+// authentication answered with an error.
+
+func ruleAuthMetaKept(c *Ctx) {
+	p := c.P
+	fn := p.Fn("(*server.Service).temporaryConn")
+	auth := p.Method("server.wsConn.AuthResourceNoResult")
+	if fn == nil || auth == nil || len(fn.Params) < 4 {
+		c.undecided("(*server.Service).temporaryConn", "anchor", "-", "not found")
+		return
+	}
+	metaT := p.Named("codec.Meta")
+	n := 0
+	for _, g := range WithClosures(fn) {
+		for _, call := range callsIn(g) {
+			if _, ok := isCallTo(call, auth); !ok {
+				continue
+			}
+			args := callArgs(call.Common())
+			mc, ok := stripConv(args[len(args)-1]).(*ssa.MakeClosure)
+			if !ok {
+				continue
+			}
+			root := mc.Fn.(*ssa.Function)
+			var mPrm *ssa.Parameter
+			for _, prm := range root.Params {
+				if pt, ok := prm.Type().(*types.Pointer); ok && metaT != nil && types.Identical(pt.Elem(), metaT) {
+					mPrm = prm
+				}
+			}
+			if mPrm == nil {
+				continue
+			}
+			n++
+			c.inst(1)
+			sp := &Spec{InlineHelpers: true}
+			sp.Classify = func(t *Tracer, fr *Frame, in ssa.Instruction) []Ev {
+				if st, ok := in.(*ssa.Store); ok {
+					if t.Resolve(fr, st.Val).V == ssa.Value(mPrm) {
+						if _, isFV := st.Addr.(*ssa.FreeVar); isFV {
+							return []Ev{{Kind: "kept"}}
+						}
+						if _, isFA := st.Addr.(*ssa.FieldAddr); isFA {
+							return []Ev{{Kind: "kept"}}
+						}
+					}
+				}
+				// the request goes on: the request callback (a func-typed parameter of temporaryConn) is called
+				if cl, ok := in.(ssa.CallInstruction); ok && !cl.Common().IsInvoke() && cl.Common().StaticCallee() == nil {
+					if _, isB := cl.Common().Value.(*ssa.Builtin); !isB {
+						for _, wf := range p.closuresHeld(cl.Common().Value, 0) {
+							_ = wf
+						}
+						v := cl.Common().Value
+						if u, isU := v.(*ssa.UnOp); isU {
+							v = u.X
+						}
+						if fv, isFV := v.(*ssa.FreeVar); isFV {
+							if _, isSig := deref(fv.Type()).Underlying().(*types.Signature); isSig {
+								// passing the merged meta on directly also keeps it
+								for _, a := range cl.Common().Args {
+									if dependsOn(a, func(x ssa.Value) bool { return x == ssa.Value(mPrm) }, map[ssa.Value]bool{}, 0) {
+										return []Ev{{Kind: "kept"}, {Kind: "go-on"}}
+									}
+								}
+								return []Ev{{Kind: "go-on"}}
+							}
+						}
+					}
+				}
+				return nil
+			}
+			tr := runTrace(p, root, sp)
+			bad := ""
+			nOn := 0
+			for _, path := range tr.Paths {
+				gi := indexKind(path, "go-on")
+				if gi < 0 {
+					continue
+				}
+				nOn++
+				if !hasKind(path[:gi+1], "kept") {
+					bad = "the request goes on after header authentication on a path that does not keep the authentication answer's meta: its headers and Set-Cookie values are missing from the response: " + tr.FmtPath(path)
+				}
+			}
+			if nOn == 0 {
+				bad = "no path on which the request goes on found"
+			}
+			if tr.Trunc {
+				bad = "path budget exhausted"
+			}
+			c.check(bad == "", fnName(root), "the header-authentication answer's meta is kept whenever the request goes on", p.InstrPos(call), fmt.Sprintf("%d paths, %d go on", len(tr.Paths), nOn), bad)
+		}
+	}
+	if n == 0 {
+		c.viol(fnName(fn), "the header-authentication answer's meta is kept whenever the request goes on", p.Pos(fn.Pos()), "no header-authentication continuation found")
+	}
+}
+
+func deref(t types.Type) types.Type {
+	if pt, ok := t.(*types.Pointer); ok {
+		return pt.Elem()
+	}
+	return t
+}
